@@ -41,7 +41,7 @@ type explorer struct {
 	crashCases, cancelCases, crashDup, cancDup atomic.Int64
 	questions, belowErr, belowSame             atomic.Int64
 	pruneTransitions, multiBatchPrunes         atomic.Int64
-	midCases                                   atomic.Int64
+	midCases, liveCases, restartCases          atomic.Int64
 }
 
 var (
@@ -49,6 +49,7 @@ var (
 	crashSeen    sync.Map
 	cancelSeen   sync.Map
 	midSeen      sync.Map
+	restartSeen  sync.Map
 	outMu        sync.Mutex
 	outcomes     = map[string]int{}
 )
@@ -155,16 +156,16 @@ func clip(s string) string {
 
 // check compares node a (on store da, floor fl) with the twin b (on store db) under the property's rule.
 func (w *world) check(tag string, a *blockchain.Blockchain, da *memory.Database, blockFloor, stateFloor uint64,
-	b *blockchain.Blockchain, dbb *memory.Database, canon, extra []*chain.Entry, st *cmpStats, ctx map[string]any,
+	tw *twinState, canon, extra []*chain.Entry, st *cmpStats, ctx map[string]any,
 ) {
 	head := uint64(len(canon) - 1)
 	p := w.probe(canon, extra, 0, blockFloor, min(blockFloor+1, head), head)
 	oa := observe(a, p)
-	ob := twinObserve(b, dbb, w.cfg.NewState, p)
+	ob := twinObserve(tw, p)
 	n0 := len(w.problems)
 	w.compare(tag, oa, ob, blockFloor, stateFloor, st, ctx)
 	if len(w.problems) > n0 {
-		full := w.fullAnswers(a, b, extra)
+		full := w.fullAnswers(a, tw.node(), extra)
 		for i := n0; i < len(w.problems); i++ {
 			if q, ok := w.problems[i].detail["question"].(string); ok {
 				for k, v := range full(w.problems[i].key, q) {
@@ -192,13 +193,13 @@ func (x *explorer) phaseB(p path) (out resB) {
 				// the node publishes at that moment must already cover everything the committed batches removed
 				w.fdb.OnCommit(func(c faultdb.Commit) {
 					bf, sf := floors(w.fdb, w.floor)
-					ih, th := faultdb.Hash(w.fdb.Inner()), faultdb.Hash(w.twinDB)
-					key := fmt.Sprintf("%s|%x|%x|%d|%d", cfg, ih[:16], th[:16], bf, sf)
+					ih := faultdb.Hash(w.fdb.Inner())
+					key := fmt.Sprintf("%s|%x|%s|%d|%d", cfg, ih[:16], w.tw.hash, bf, sf)
 					if _, dup := midSeen.LoadOrStore(key, true); dup {
 						return
 					}
 					x.midCases.Add(1)
-					w.check("mid-prune (concurrent reader)", w.bc, w.fdb.Inner(), bf, sf, w.twin, w.twinDB, w.canon, nil, st,
+					w.check("mid-prune (concurrent reader)", w.bc, w.fdb.Inner(), bf, sf, w.tw, w.canon, nil, st,
 						map[string]any{"after_prune_commit": c.N - c0})
 				})
 			}
@@ -211,12 +212,22 @@ func (x *explorer) phaseB(p path) (out resB) {
 		}
 		defer func() { x.absorb(st); x.report(p, w.problems) }()
 
-		// (1) the long-lived node, as it is now
+		// (1) the long-lived node, as it is now. States that differ only in the pruner's counters / the clock have the
+		// same image, floors and twin: their answers were already compared (by the reader that ran after the last
+		// batch commit, or in an earlier state).
 		bf, sf := floors(w.fdb, w.floor)
-		w.check("live", w.bc, w.fdb.Inner(), bf, sf, w.twin, w.twinDB, w.canon, nil, st, nil)
+		ih := faultdb.Hash(w.fdb.Inner())
+		if _, dup := midSeen.LoadOrStore(fmt.Sprintf("%s|%x|%s|%d|%d", cfg, ih[:16], w.tw.hash, bf, sf), true); !dup {
+			x.liveCases.Add(1)
+			w.check("live", w.bc, w.fdb.Inner(), bf, sf, w.tw, w.canon, nil, st, nil)
+		}
 
-		// (2) restart on the image, store the next block, revert down to the floor
-		w.restartStoreRevert("reopen+store+revert-to-floor", w.fdb.Inner(), st)
+		// (2) restart on the image, store the next block, revert down to the floor (a restart forgets counters and
+		// raised floor, so this depends on the image and the clock's effect on the next block only)
+		if _, dup := restartSeen.LoadOrStore(fmt.Sprintf("%v|%x|%s", cfg.NewState, ih[:16], w.tw.hash), true); !dup {
+			x.restartCases.Add(1)
+			w.restartStoreRevert("reopen+store+revert-to-floor", w.fdb.Inner(), st)
+		}
 
 		// (3) interruption of the prune of the last transition after every batch commit
 		out.k, out.c0 = w.c1-w.c0, w.c0
@@ -231,14 +242,13 @@ func (x *explorer) phaseB(p path) (out resB) {
 		if out.k >= 3 {
 			x.multiBatchPrunes.Add(1)
 		}
-		twinH := faultdb.Hash(w.twinDB)
 		for j := 1; j < out.k; j++ {
 			img := w.fdb.Image(w.c0 + j)
 			if img == nil {
 				panic("missing snapshot")
 			}
 			ih := faultdb.Hash(img)
-			key := fmt.Sprintf("%s|%x|%x|%d", cfg, ih[:16], twinH[:16], time.Now().Unix())
+			key := fmt.Sprintf("%s|%x|%s|%d", cfg, ih[:16], w.tw.hash, time.Now().Unix())
 			if _, dup := crashSeen.LoadOrStore(key, true); dup {
 				x.crashDup.Add(1)
 				continue
@@ -277,23 +287,20 @@ func (w *world) checkReopened(tag string, img *memory.Database, st *cmpStats, ct
 		return
 	}
 	bf, sf := floors(d, fl)
-	w.check(tag, bc, d, bf, sf, w.twin, w.twinDB, w.canon, nil, st, ctx)
+	w.check(tag, bc, d, bf, sf, w.tw, w.canon, nil, st, ctx)
 }
 
 func (w *world) restartStoreRevert(tag string, img *memory.Database, st *cmpStats) {
 	ns := w.cfg.NewState
-	d, td := img.Copy(), w.twinDB.Copy()
+	d := img.Copy()
 	bc, fl, err := openPruningNode(d, ns)
 	if err != nil {
 		w.problem(tag+": reopen fails"+backend(ns), map[string]any{"err": err.Error()})
 		return
 	}
-	tw := chain.NewNode(fastStore{td}, ns)
 	parent := w.canon[w.head()]
 	next := nextEntry(parent, max(uint64(time.Now().Unix()), parent.Block.Timestamp)+blockSec)
-	if err := chain.StoreSync(tw, next); err != nil {
-		panic(err)
-	}
+	tw := twinStore(w.tw, next)
 	if err := chain.StoreSync(bc, next); err != nil {
 		w.problem("store-next-fails after reopen"+backend(ns), map[string]any{"block": next.Block.Number, "err": err.Error()})
 		return
@@ -304,9 +311,7 @@ func (w *world) restartStoreRevert(tag string, img *memory.Database, st *cmpStat
 	}
 	h := w.head() + 1
 	for h > tgt {
-		if err := tw.RevertHead(); err != nil {
-			panic(fmt.Sprintf("twin revert of %d: %v", h, err))
-		}
+		tw = twinRevert(tw)
 		if err := bc.RevertHead(); err != nil {
 			w.problem("revert-above-floor-fails after reopen"+backend(ns), map[string]any{"block": h, "oldest_retained": tgt, "err": err.Error()})
 			return
@@ -314,7 +319,7 @@ func (w *world) restartStoreRevert(tag string, img *memory.Database, st *cmpStat
 		h--
 	}
 	bf, sf := floors(d, fl)
-	w.check(tag, bc, d, bf, sf, tw, td, w.canon[:h+1], []*chain.Entry{next}, st, map[string]any{"reverted_down_to": h})
+	w.check(tag, bc, d, bf, sf, tw, w.canon[:h+1], []*chain.Entry{next}, st, map[string]any{"reverted_down_to": h})
 }
 
 // phaseCancel: same path, but the service context is cancelled right after the j-th batch commit of the last prune.
@@ -343,8 +348,7 @@ func (x *explorer) phaseCancel(p path, b resB, j int) {
 		}
 		w.cheapChecks()
 		ih := faultdb.Hash(w.fdb.Inner())
-		twinH := faultdb.Hash(w.twinDB)
-		key := fmt.Sprintf("%s|%x|%x|%d|%d", cfg, ih[:16], twinH[:16], stateFloorOf(w.floor), time.Now().Unix())
+		key := fmt.Sprintf("%s|%x|%s|%d|%d", cfg, ih[:16], w.tw.hash, stateFloorOf(w.floor), time.Now().Unix())
 		if _, dup := cancelSeen.LoadOrStore(key, true); dup {
 			x.cancDup.Add(1)
 			return
@@ -353,7 +357,7 @@ func (x *explorer) phaseCancel(p path, b resB, j int) {
 		ctx := map[string]any{"cancel_after_commit": fmt.Sprintf("%d of %d", j, b.k)}
 		// the still-running node (floor already raised in memory, deletion partial)
 		bf, sf := floors(w.fdb, w.floor)
-		w.check("cancel-mid-prune (live)", w.bc, w.fdb.Inner(), bf, sf, w.twin, w.twinDB, w.canon, nil, st, ctx)
+		w.check("cancel-mid-prune (live)", w.bc, w.fdb.Inner(), bf, sf, w.tw, w.canon, nil, st, ctx)
 		// ... and after a restart
 		w.checkReopened("cancel-mid-prune (reopened)", w.fdb.Inner(), st, ctx)
 		got, errs := resume(cfg, w.fdb.Inner())
@@ -517,6 +521,8 @@ func TestCheck(t *testing.T) {
 		tot.pruneTransitions.Add(x.pruneTransitions.Load())
 		tot.multiBatchPrunes.Add(x.multiBatchPrunes.Load())
 		tot.midCases.Add(x.midCases.Load())
+		tot.liveCases.Add(x.liveCases.Load())
+		tot.restartCases.Add(x.restartCases.Load())
 	}
 	for k, v := range outcomes {
 		for i := 0; i < min(v, 1); i++ {
@@ -533,6 +539,9 @@ func TestCheck(t *testing.T) {
 	r.Set("prune_transitions", tot.pruneTransitions.Load())
 	r.Set("multi_batch_prunes_interrupted", tot.multiBatchPrunes.Load())
 	r.Set("mid_prune_reader_points_checked", tot.midCases.Load())
+	r.Set("quiescent_images_compared_live", tot.liveCases.Load())
+	r.Set("images_reopened_stored_reverted", tot.restartCases.Load())
+	r.Set("twin_operations_executed", twinExecs.Load())
 	r.Set("crash_points_checked", tot.crashCases.Load())
 	r.Set("crash_points_identical_to_checked", tot.crashDup.Load())
 	r.Set("cancel_points_checked", tot.cancelCases.Load())
@@ -540,7 +549,7 @@ func TestCheck(t *testing.T) {
 	r.Set("questions_compared_with_twin", tot.questions.Load())
 	r.Set("below_floor_refused", tot.belowErr.Load())
 	r.Set("below_floor_answered_completely", tot.belowSame.Load())
-	r.Set("evaluations", tot.states.Load()+tot.crashCases.Load()+tot.cancelCases.Load())
+	r.Set("evaluations", tot.liveCases.Load()+tot.restartCases.Load()+tot.midCases.Load()+tot.crashCases.Load()+tot.cancelCases.Load())
 	r.Set("distinct_nontrivial", tot.states.Load())
 	r.Set("rule", fmt.Sprintf("per configuration (retained x min-age x heads/prune x batch threshold x state backend): BFS over ALL sequences of <= %d events from "+
 		"{store next block, L1 head := head-2 | head | head+3, floor tick (+5 min), revert head down to the floor, catch-up store} on a %d-block base chain, "+
